@@ -419,7 +419,19 @@ func RegistryScripts() []Script {
 		quitChain(2, ownerN(1)),
 		RoundStep(KApproveQuitSC, idStr(2), "rest-of-round"),
 	}, Tail: 10}
-	return []Script{stale, swap, {Name: "registry-non-owner-paths", Steps: []Step{
+	// the owner himself replaces his pending update after part of the quorum approved the first version
+	ownerSwap := Script{Name: "registry-owner-replaces-update-while-partially-approved", Steps: []Step{
+		regChain(3, ownerN(0)), RoundStep(KApproveRegisterSC, idStr(3), "first-round"),
+		updChain(3, ownerN(0)), partial(KApproveUpdateSC, 3, "partial-round"),
+		OpStep(func(g *Gen) *Op {
+			a := g.W.Owners[0]
+			c := g.chainContent(3, a)
+			c.Name, c.CCMC = "replaced-"+c.Name, []byte{0xee, 0xee}
+			return &Op{Kind: KUpdateSideChain, Actor: a, Chain: c, Tag: "owner-replaces-pending-update"}
+		}),
+		RoundStep(KApproveUpdateSC, idStr(3), "rest-of-round"),
+	}, Tail: 5}
+	return []Script{stale, swap, ownerSwap, {Name: "registry-non-owner-paths", Steps: []Step{
 		regChain(maxChainID, ownerN(0)),
 		regChain(maxChainID, ownerN(1)), // second request for the same id while pending
 		RoundStep(KApproveRegisterSC, idStr(maxChainID), "first-round"),
